@@ -61,9 +61,22 @@ static void c16_scripted_F(Buf *b) {
     clock_advance_ms(3000); c16_host(); c16_readclock(b);
 }
 
+/* scripted history reproducing known finding G: at a faster-than-nominal rate, polling the TPM every millisecond makes
+ * Clock run about twice as fast as the host (the two floor divisions in _plat__TimerRead lose the remainder) */
+static void c16_scripted_G(Buf *b) {
+    tr("hist -2 scripted-G");
+    g_mono_ns = 5000ULL * 1000000ULL; g_real_ns = 1700000000000000000ULL; c16_host();
+    tpm2_fresh(NULL); tr("fresh");
+    c16_startup(b, 0);
+    c16_rateadjust(b, 3);
+    c16_readclock(b);
+    for (int i = 0; i < 2000; i++) { clock_advance_ms(1); c16_host(); if (i % 200 == 199) c16_readclock(b); else c16_neutral(b); }
+}
+
 static void scen_c16(int histories, int maxops) {
     Buf b = {0};
     c16_scripted_F(&b);
+    c16_scripted_G(&b);
     for (int h = 0; h < histories; h++) {
         tr("hist %d", h);
         g_mono_ns = (1 + rnd(1000000)) * 1000000ULL;
